@@ -8,6 +8,7 @@ def run(tier, seed):
     rep = Report("C18", tier, seed)
     run_e1(rep, "C18", tier)
     triples.run_triples(rep, "numba")
+    triples.run_quads(rep, "numba", tier)
     run_e3numba(rep, tier, seed)
     rep.assume("numeric equality of the two kernels and numba's own compilation are not decided",
                "L-UNPARSE for the Python grammar (depth-2 => all trees), CPython's ast as the Python grammar",
